@@ -693,7 +693,8 @@ class C06(Prop):
                   "(recursion over all derivations, 88 productions): every sentence / tree of the grammar arises that way; fullParen_wf, "
                   "same_tree_as_parenthesised, every_parse_tree; DumpAST mirrored as a stack machine (dump_exact, "
                   "dump_roundtrip_partial); checked executable parser (parse_sound); lexer word classification over lark's LALR accept "
-                  "sets (literals_not_idents); correspondence lark tree vs toTree, tree_dump vs dump; oracle with its own level table",
+                  "sets (literals_not_idents, words_beside_keywords_are_idents); correspondence lark tree vs toTree, tree_dump vs dump, "
+                  "single expressions and sequences in one process; oracle with its own level table and token list",
         text="proof: for ALL expressions (any depth, any argument counts) and for EVERY tree derivable from the grammar: the token string "
              "of a well-parenthesised expression derives the tree CEL's precedence/associativity table prescribes, the fully "
              "parenthesised form has the same tree modulo parenthesis nodes, and DumpAST's output re-derives the same tree unless "
@@ -713,7 +714,11 @@ class C06(Prop):
             "list, map, parenthesised minimally by the oracle's own level table; (2) grammar-directed random expressions (depth<=5 "
             "quick, <=8 thorough) with minimal + random redundant parentheses, literals of every terminal incl. negative/hex/raw/"
             "triple-quoted/bytes, identifiers like trueish/nulls/as/in, empty list/map/message/call in every position; (3) the same "
-            "with parentheses randomly removed (regrouping). Text = tokens joined with random blanks, newlines and // comments. "
+            "with parentheses randomly removed (regrouping); (4) sequences of 2-9 related sources parsed one after the other by "
+            "the same process (texts that differ only in blanks/tabs/line breaks inside a string/bytes literal, in where a // "
+            "comment ends, in letter case, in quotes, after a long common prefix; same text again; another CELParser object "
+            "without reset): every step must still get its own tree; (0) words that only begin with true/false/null/in. "
+            "Text = tokens joined with random blanks, newlines and // comments. "
             "non-trivial = distinct case with at least two operators or a non-identifier atom")
 
     def setup(self):
@@ -864,6 +869,8 @@ class C06(Prop):
                 want = "BOOL_LIT" if w != "null" else "NULL_LIT"
                 if out != "type=" + want:
                     return f"`{w}` in expression position is lexed as {out}, not as the literal {want}"
+            if any(w.startswith(k) and len(w) > len(k) for k in ("true", "false", "null", "in")) and out != "type=IDENT":
+                return f"`{w}` only begins with a keyword; it is an identifier, but the lexer says {out}"
             return None       # name positions (`a.null`, `x{in: 1}`) are outside the statement
         if c["kind"] == "seq":
             ob = self._extra.get(_key(c))
@@ -948,6 +955,11 @@ class C06(Prop):
         for w in ["true", "false", "null", "in", "as", "if", "trueish", "nulls", "inn", "True", "NULL", "a"]:
             for pos in ("primary", "dot", "field"):
                 cases.append({"kind": "word", "word": w, "pos": pos})
+        # words that only begin with a keyword are identifiers, wherever an identifier may stand
+        for k in ("true", "false", "null", "in"):
+            for suf in ("s", "_", "0", "True", "able", "_positives", k):
+                for pos in ("primary", "dot", "field"):
+                    cases.append({"kind": "word", "word": k + suf, "pos": pos})
         # (1) systematic operator pairs / triples
         sys_ = []
         for n in (1, 2):
